@@ -64,6 +64,7 @@ type Op struct {
 	KN     int    `json:"kn,omitempty"`     // import: 1000 + j (seeded key j); use: signing key (created key number or imported id)
 	M      string `json:"m,omitempty"`      // use: method
 	Var    string `json:"var,omitempty"`    // the token is presented in this variant spelling (see spelling.go)
+	NS     int    `json:"ns,omitempty"`     // create: naming scheme of the world's user IDs (see names.go); 0 = plainly distinct names
 	PG     int    `json:"pg,omitempty"`     // open: 0 = the passphrase of the profile version the instance was made with; k>0 = the passphrase of version k-1
 }
 
@@ -151,9 +152,16 @@ type world struct {
 	psnap  map[int][]string
 	igen   []int
 	ownerN map[int]int
+	ns     int // naming scheme of the user IDs
 }
 
-func (w *world) userName(u int) string { return fmt.Sprintf("c19-%s-%d-u%d", runNonce, w.id, u) }
+func (w *world) userName(u int) string {
+	if w.ns != 0 {
+		return similarName(fmt.Sprintf("c19-%s-%d-user@example.com", runNonce, w.id), w.ns, u)
+	}
+
+	return fmt.Sprintf("c19-%s-%d-u%d", runNonce, w.id, u)
+}
 func pass(u int) string                { return fmt.Sprintf("correct horse %d", u) }
 
 // passG: the passphrase of version g of profile u
@@ -502,6 +510,10 @@ func (w *world) apply(op Op) (obs Obs, touched []hx.Call) {
 
 	switch op.Kind {
 	case "create":
+		if op.NS != 0 && len(w.psnap) == 0 {
+			w.ns = op.NS
+		}
+
 		popt := wallet.WithPassphrase(pass(op.U))
 
 		if op.Remote > 0 {
@@ -1027,6 +1039,13 @@ func runOnce(kind string, ops []Op) (*hx.Record, bool) {
 	s.dist = []string{fmt.Sprintf("len=%d", len(ops)/10*10)}
 
 	for _, op := range ops {
+		if op.Kind == "create" {
+			s.dist = append(s.dist, fmt.Sprintf("user-ids=scheme-%d", op.NS))
+			break
+		}
+	}
+
+	for _, op := range ops {
 		if !s.do(op) {
 			return nil, false
 		}
@@ -1086,6 +1105,20 @@ type builder struct {
 	// profile versions as the generator expects them (UpdateProfile): current version per user, version per instance
 	gen  map[int]int
 	igen []int
+	ns   int
+}
+
+// similar: the user IDs of this history are look-alikes of one another under a seeded scheme (names.go)
+func (b *builder) similar(r *hx.Rng) *builder {
+	b.ns = 1 + r.Intn(nameSchemes)
+
+	for i := range b.ops {
+		if b.ops[i].Kind == "create" {
+			b.ops[i].NS = b.ns
+		}
+	}
+
+	return b
 }
 
 func newBuilder(nUsers int) *builder { return newBuilderR(make([]int, nUsers)) }
@@ -1200,7 +1233,7 @@ func (b *builder) event(e string) {
 		b.ops = append(b.ops, Op{Kind: "update", U: u})
 		b.gen[u]++
 	case "recreate": // CreateProfile over an existing profile: refused, nothing changes
-		b.ops = append(b.ops, Op{Kind: "create", U: u})
+		b.ops = append(b.ops, Op{Kind: "create", U: u, NS: b.ns})
 	case "opencur", "opencurlast": // Open presenting the passphrase of the CURRENT profile version (wrong for an instance made before an update)
 		if len(b.remotes) >= u && b.remotes[u-1] > 0 {
 			break
@@ -1385,6 +1418,10 @@ func (b *builder) probesFull(r *hx.Rng) {
 
 func buildFull(r *hx.Rng) []Op {
 	b := newBuilder(2)
+	if r.Intn(2) == 0 {
+		b.similar(r)
+	}
+
 	// a short-lived session is used for the preparation only and has expired before the probes (no liveness decision
 	// near its expiry); the other sessions have the default expiry
 	opens := [][]string{{"openl1", "openl2"}, {"opens1", "openl2"}, {"openl1"}, {"openl1", "opens2"}}[r.Intn(4)]
@@ -1422,6 +1459,10 @@ type job struct {
 
 func build(nUsers int, events []string, r *hx.Rng, kinds []string) []Op {
 	b := newBuilder(nUsers)
+	if r.Intn(2) == 0 { // half of all histories: user IDs that are look-alikes of one another
+		b.similar(r)
+	}
+
 	for _, e := range events {
 		b.event(e)
 	}
@@ -1634,6 +1675,9 @@ func main() {
 		r := fork()
 		conf := rconf[r.Intn(len(rconf))]
 		b := newBuilderR(conf)
+		if r.Intn(2) == 0 {
+			b.similar(r)
+		}
 
 		for k := 2 + r.Intn(8); k > 0; k-- {
 			b.event(fmt.Sprintf("%s%d", revents[r.Intn(len(revents))], 1+r.Intn(len(conf))))
@@ -1653,6 +1697,10 @@ func main() {
 	for i := 0; i < nSpell; i++ {
 		r := fork()
 		b := newBuilder(2)
+		if i%2 == 1 {
+			b.similar(r)
+		}
+
 		b.event("openl1")
 		if i%4 == 2 {
 			b.event("opens2") // short expiry: spelt after it has passed
@@ -1777,9 +1825,10 @@ func main() {
 	}
 
 	for i := 0; i < 1+nAttack/5; i++ {
-		tr.Put(methodsAttack(i))
-		tr.Put(didcommAttack(i))
-		tr.Put(controllerAttack(i))
+		rep := i + (1+nAttack/5)*int(args.Seed%1000) // the repetition number selects spellings and the naming scheme of the user IDs
+		tr.Put(methodsAttack(rep))
+		tr.Put(didcommAttack(rep))
+		tr.Put(controllerAttack(rep))
 	}
 
 	for i := 0; i < 2*nAttack; i++ {
